@@ -5,5 +5,6 @@ CONSTANTS
   Algs = {"ES256", "ES384", "RS256", "RS384", "PS256", "PS384", "HMAC256", "HMAC384"}
   PayloadKinds = {"empty", "raw", "large", "nested"}
   MaxAlter = 3
+  OptsKeys = {"P-256", "P-384", "P-521", "RSA-2048", "RSA-3072"}
 VIEW View
-INVARIANTS TypeOK VerifyExact HonestVerifies AlteredNeverVerifies AlterationsDiffer CoversAll
+INVARIANTS TypeOK VerifyExact HonestVerifies AlteredNeverVerifies AlterationsDiffer CoversAll SignedOrRefused OptsVerify
